@@ -248,6 +248,13 @@ func c04Cells(tier string) []Cell {
 								cells = append(cells, Cell{ID: u.ID()})
 							}
 
+							// long keys (100 bytes, the first 70 shared): the plain and the buffer-reusing programs
+							if (pi == 3 || pi == 2) && !faults && sc != "p" && cfgBits&0x18 == 0x08 {
+								l := c
+								l.Tags = []string{"longkeys"}
+								cells = append(cells, Cell{ID: l.ID()})
+							}
+
 							// the backend has been walked by somebody who gave up half-way (a dump to a broken connection):
 							// the Gets that follow must complete all the same
 							if pi == 3 && !faults && init != "A" && cfgBits&0x18 == 0x08 {
@@ -282,7 +289,7 @@ func init() {
 		Cells: c04Cells, Run: c04Run,
 		Rule: "cell = front-end x configuration x entry state x builder outcome x caller behaviour after return (overwrite the key buffer, reuse one buffer for the next Get as bench/failover.go does, cancel the context, nothing) x backend fault on/off; " +
 			"all schedules within the preemption bound incl. every position of the caller's buffer overwrite relative to the background build; termination is decided by the scheduler's deadlock detection, " +
-			"builder scripts: all succeed / all fail / all panic on the caller's goroutine (the caller recovers); key locks are counted at quiescence through a verif-tagged accessor; where all builds succeed a Get at quiescence (no time passing) must return the last completed build without building (after a backend fault: must return a value of its key); and a black-box follow-up (forced expiry, two more Gets per key) must build exactly once and observe that build",
+			"keys of 13 and of 100 bytes; builder scripts: all succeed / all fail / all panic on the caller's goroutine (the caller recovers); key locks are counted at quiescence through a verif-tagged accessor; where all builds succeed a Get at quiescence (no time passing) must return the last completed build without building (after a backend fault: must return a value of its key); and a black-box follow-up (forced expiry, two more Gets per key) must build exactly once and observe that build",
 		Assumptions: []string{
 			"deadlock = no runnable controlled thread while some are blocked; no wall-clock time-out is used as an oracle",
 			"the follow-up phase runs under the scheduler after all worker threads joined",
